@@ -7,8 +7,11 @@ import (
 	"github.com/jsightapi/jsight-api-go-library/jerr"
 )
 
+// collectRules collects the enums in the order in which they are in the project
+// after the MACRO/PASTE expansion (an ENUM is a top-level directive there, the
+// same as if it was written in the place of the PASTE).
 func (core *JApiCore) collectRules() *jerr.JApiError {
-	return core.collectRulesFromDirectives(core.directives)
+	return core.collectRulesFromDirectives(core.directivesWithPastes)
 }
 
 func (core *JApiCore) collectRulesFromDirectives(dd []*directive.Directive) *jerr.JApiError {
